@@ -1529,6 +1529,7 @@ func runR158(c *core.Ctx) {
 func init() {
 	// what the sixth seeding round added to each property's claim (printed into the evidence files)
 	for id, text := range map[string]string{
+		"C10": "Round 6: R10.1, R10.2, R10.6, R10.8, R10.9 and the enum rule R11.3 (IsValid bound) also run on bindings produced by the root module's generator (gen/root, corpus:root/*).",
 		"C01": "Round 6: the JSON reader's float methods go through JsonNumber(), which accepts the string forms the writer emits (R01.10); easyjson buffers are never read through Buffer.Buf (R01.11); object keys are unescaped (R03.5).",
 		"C02": "Round 6: no normalising call between the request URL and the routed segments (R02.8); the tunnelling encoder names the verb on every path (R14.6); an offset found in a re-sliced string is applied with its base (R15.8).",
 		"C03": "Round 6: R03.5 (keys unescaped), R01.10, R01.11.",
@@ -1538,8 +1539,9 @@ func init() {
 		"C07": "Round 6: a truncating append through the slice field of a struct copy rewrites the original's elements (R12.6).",
 		"C08": "Round 6: R02.7 and R04.12 registered here; a directly deferred named recover function counts as the recover (R08.5); the nil-status clause of R08.3 is a path property.",
 		"C09": "Round 6: an outer string rewritten from itself and the entry visited, entry by entry of a map, is an order-dependent fold (R09.1).",
-		"C12": "Round 6: a rejected Register leaves no trace (R12.12); kept closures do not capture a pre-1.22 loop variable (R12.13); call results of functions that hand out their receiver's slice are not owned, and a truncating append through such a local is flagged (R12.6); files with the generator's suffix are removed on every path (R20.7).",
-		"C13": "Round 6: R03.5 (an escaped spelling of a field name must still match its case, otherwise the default overrides data); R12.13.",
+		"C11": "Round 6: R11.2 and R11.3 also run on bindings produced by the root module's generator (gen/root, corpus:root/*); R03.5.",
+		"C12": "Round 6: a rejected Register leaves no trace (R12.12); kept closures do not capture a pre-1.22 loop variable (R12.13); call results of functions that hand out their receiver's slice are not owned, and a truncating append through such a local is flagged (R12.6); files with the generator's suffix are removed on every path (R20.7). R12.1 also type-checks bindings produced by the root module's generator against the root runtime (corpus:root/*).",
+		"C13": "Round 6: R03.5 (an escaped spelling of a field name must still match its case, otherwise the default overrides data); R12.13. R13.3, R13.4, R13.5 also run on bindings produced by the root module's generator (corpus:root/*).",
 		"C14": "Round 6: the override header is set from the verb on every path of EncodeTunnelledQuery (R14.6); allocation sizes never derive from Content-Length (R04.7 registered here).",
 		"C15": "Round 6: R15.8 (offset in a re-sliced string); R02.8.",
 		"C16": "Round 6: lookups in the key table use the decoded key only (R16.10); doBatchQuery returns the locator's verdict itself, not through a lenient wrapper (R16.11).",
